@@ -1,3 +1,3 @@
 from harness.corecheck import make
 MODULE = make("C09", ["CircusProofs/Props/C09.lean", "CircusProofs/Props/C09Run.lean"],
-              ["CircusProofs/Core/Pres.lean", "CircusProofs/Core/KStep.lean", "CircusProofs/Core/Generic.lean", "CircusProofs/Core/SlotFree.lean", "CircusProofs/Core/Narrow.lean", "CircusProofs/Core/PidInv.lean", "CircusProofs/Core/EventInv.lean", "CircusProofs/Props/C02.lean", "CircusProofs/Props/C14.lean"])
+              ["CircusProofs/Core/Pres.lean", "CircusProofs/Core/KStep.lean", "CircusProofs/Core/Generic.lean", "CircusProofs/Core/SlotFree.lean", "CircusProofs/Core/Narrow.lean", "CircusProofs/Core/HookFrame.lean", "CircusProofs/Core/PidInv.lean", "CircusProofs/Core/EventInv.lean", "CircusProofs/Props/C02.lean", "CircusProofs/Props/C14.lean"])
